@@ -357,6 +357,10 @@ def declared_events(d):
     return out
 
 
+class Bag:
+    """One class for every attribute-bag provider: callbacks and the state field are per-instance attributes."""
+
+
 class Built:
     """A real class plus the factories for its providers."""
 
@@ -395,6 +399,9 @@ class Built:
             elif style in ("method", "decorator"):
                 by_prov.setdefault("sm", {})[cb["name"]] = method
         self.provider_methods = by_prov
+        self.provider_functions = {p: {cb["name"]: funcs[c][1] for c, cb in enumerate(d["cbs"], start=1)
+                                       if cb["prov"] == p and cb["style"] in ("name", "convention")}
+                                   for p in by_prov}
 
         def ref(c, cb):
             style = cb["style"]
@@ -494,6 +501,14 @@ class Built:
         Model kinds: attr (plain attribute), property (property-backed storage), classattr
         (class-level default, instance attribute only after the first write), falsy_len / falsy_bool
         (objects that are falsy)."""
+        if kind == "bag":
+            obj = Bag()
+            for name, fn in getattr(self, "provider_functions", {}).get(prov, {}).items():
+                setattr(obj, name, fn)          # plain functions as instance attributes: called without self
+            obj.__dict__["_vslot"] = slot
+            if prov == "model":
+                setattr(obj, state_field, stored)
+            return obj
         methods = dict(self.provider_methods.get(prov, {}))
         if prov == "model":
             if kind == "property":
@@ -674,7 +689,8 @@ class Runner:
             stored = ""
         self.user_models[i] = model
         step["stored"] = stored
-        lst = {p: b.make_provider(p, slot=i) for p in provs if p not in ("sm", "model")}
+        lkind = "bag" if step.get("model_kind") == "bag" else "attr"
+        lst = {p: b.make_provider(p, slot=i, kind=lkind) for p in provs if p not in ("sm", "model")}
         self.rt.emit({"e": "new", "i": i, "cls": k, "opt": opt, "stored": stored,
                       "provs": provs, "gv": gv})
         kw = {}
@@ -804,7 +820,8 @@ class Runner:
                 r = None
             elif api == "add_listener":
                 p = step["v"]
-                obj = self.listeners[i].get(p) or self.built[k - 1].make_provider(p, slot=i)
+                obj = self.listeners[i].get(p) or self.built[k - 1].make_provider(
+                    p, slot=i, kind="bag" if self.scn.get("bag_providers") else "attr")
                 self.listeners[i][p] = obj
                 sm.add_listener(obj)
                 r = None
